@@ -103,7 +103,7 @@ class Build:
         mainc = exe + '.main.c'
         with open(mainc, 'w') as f:
             f.write('#include "rt.h"\nvoid run_%s(void);\nint main(void){ run_%s(); if (__exc_active) printf("UNCAUGHT-EXCEPTION ti=%%d\\n", __exc_ti); printf("DONE failed=%%d\\n", __rt_failed); return __rt_failed ? 1 : 0; }\n' % (entry, entry))
-        rc, out, err, dt = sh(['gcc', '-O1', '-w', '-fwrapv', '-fno-strict-aliasing', '-I' + os.path.join(VERIF, 'rt'), unit['c'], os.path.join(VERIF, 'rt', 'rt.c'), mainc, '-o', exe], timeout=600)
+        rc, out, err, dt = sh(['gcc', '-O1', '-w', '-fwrapv', '-fno-strict-aliasing', '-DVERIF_C_NATIVE', '-I' + os.path.join(VERIF, 'rt'), unit['c'], os.path.join(VERIF, 'rt', 'rt.c'), mainc, '-o', exe], timeout=600)
         if rc != 0:
             raise InternalError('gcc failed on generated C: ' + err[-3000:])
         return exe
